@@ -1,9 +1,314 @@
+import SwayVerif.Model.Usefulness
 import SwayVerif.Driver.Util
-/-! Driver for C14 (stub — replace `answer`; keep `run`). -/
-namespace SwayVerif.Driver.C14
-open SwayVerif.Driver
+/-!
+Driver for C14. Case: `match <type> <arms>`; implementation result:
+`<ok|nonexh|ice:<slug>|other:<Kind>> exhaustive=<0|1> witness=<pats|-|unparsed> unreachable=<idxs|-> run=<val:arm,…|->`
+(compact syntax documented in `harness/src/bin/sv_c14.rs`).
 
-def answer (_line : String) : String := "unimplemented agree=0 prop=0"
+`agree`: the model of the analysis (`Usefulness.analyse`) returns the compiler's verdict kind and the same
+set of unreachable-arm warnings. `prop`: the brute-force oracle over ALL values of the scrutinee type —
+exhaustiveness verdict exact, every reported witness really uncovered, warnings exact, run-time arm = first
+matching arm. A failing line carries `why=<classes joined by +>`; a class is printed only for the exact
+shape that is a known deviation of the compiler, anything else is `unclassified`.
+-/
+namespace SwayVerif.Driver.C14
+open SwayVerif.Usefulness SwayVerif.Driver
+
+/-! ## Parser of the compact syntax -/
+
+abbrev PR (α : Type) := Option (α × List Char)
+
+def pNat (cs : List Char) : PR Nat :=
+  let ds := cs.takeWhile Char.isDigit
+  if ds.isEmpty then none else
+  some (ds.foldl (fun a c => a * 10 + (c.toNat - '0'.toNat)) 0, cs.dropWhile Char.isDigit)
+
+def expect (c : Char) : List Char → Option (List Char)
+  | d :: cs => if c == d then some cs else none
+  | [] => none
+
+mutual
+def pTy : Nat → List Char → PR Ty
+  | 0, _ => none
+  | _ + 1, 'b' :: cs => some (.bool, cs)
+  | _ + 1, 'u' :: cs => some (.u8, cs)
+  | f + 1, 'e' :: '[' :: cs => (pTyList f cs).map fun (ts, r) => (.enum ts, r)
+  | f + 1, 't' :: '[' :: cs => (pTyList f cs).map fun (ts, r) => (.tuple ts, r)
+  | f + 1, 's' :: '[' :: cs => (pTyList f cs).map fun (ts, r) => (.strct ts, r)
+  | _, _ => none
+/-- after `[`: elements separated by `,` up to `]`. -/
+def pTyList : Nat → List Char → PR (List Ty)
+  | 0, _ => none
+  | _ + 1, ']' :: cs => some ([], cs)
+  | f + 1, cs =>
+    match pTy f cs with
+    | none => none
+    | some (t, ',' :: r) => (pTyList f r).map fun (ts, r') => (t :: ts, r')
+    | some (t, ']' :: r) => some ([t], r)
+    | some _ => none
+end
+
+mutual
+def pPat : Nat → List Char → PR Pat
+  | 0, _ => none
+  | _ + 1, '_' :: cs => some (.wild, cs)
+  | _ + 1, 'x' :: cs => some (.wild, cs)
+  | _ + 1, 'T' :: cs => some (.bool true, cs)
+  | _ + 1, 'F' :: cs => some (.bool false, cs)
+  | _ + 1, 'n' :: cs => (pNat cs).map fun (n, r) => (.u8 n n, r)
+  | _ + 1, 'm' :: cs => (pNat cs).map fun (n, r) => (.num n n, r)
+  | _ + 1, 'r' :: cs =>
+    match pNat cs with
+    | some (a, '-' :: r) => (pNat r).map fun (b, r') => (.u8 a b, r')
+    | _ => none
+  | f + 1, 'v' :: cs =>
+    match pNat cs with
+    | some (k, '/' :: r) =>
+      match pNat r with
+      | some (n, '(' :: r') =>
+        match pPat f r' with
+        | some (p, ')' :: r'') => some (.enum n k p, r'')
+        | _ => none
+      | _ => none
+    | _ => none
+  | f + 1, 't' :: '[' :: cs => (pPatList f cs).map fun (ps, r) => (.tuple ps, r)
+  | f + 1, 'o' :: '[' :: cs => (pPatList f cs).map fun (ps, r) => (.or ps, r)
+  | f + 1, 's' :: '[' :: cs => (pFields f cs).map fun (fs, r) => (.strct (fs.map Prod.fst) (fs.map Prod.snd), r)
+  | _, _ => none
+def pPatList : Nat → List Char → PR (List Pat)
+  | 0, _ => none
+  | _ + 1, ']' :: cs => some ([], cs)
+  | f + 1, cs =>
+    match pPat f cs with
+    | none => none
+    | some (p, ',' :: r) => (pPatList f r).map fun (ps, r') => (p :: ps, r')
+    | some (p, ']' :: r) => some ([p], r)
+    | some _ => none
+def pFields : Nat → List Char → PR (List (Nat × Pat))
+  | 0, _ => none
+  | _ + 1, ']' :: cs => some ([], cs)
+  | f + 1, cs =>
+    match pNat cs with
+    | some (i, ':' :: r) =>
+      match pPat f r with
+      | none => none
+      | some (p, ',' :: r') => (pFields f r').map fun (fs, r'') => ((i, p) :: fs, r'')
+      | some (p, ']' :: r') => some ([(i, p)], r')
+      | some _ => none
+    | _ => none
+end
+
+mutual
+def pVal : Nat → List Char → PR Val
+  | 0, _ => none
+  | _ + 1, 'T' :: cs => some (.bool true, cs)
+  | _ + 1, 'F' :: cs => some (.bool false, cs)
+  | _ + 1, 'n' :: cs => (pNat cs).map fun (n, r) => (.u8 n, r)
+  | f + 1, 'v' :: cs =>
+    match pNat cs with
+    | some (k, '(' :: r) =>
+      match pVal f r with
+      | some (v, ')' :: r') => some (.enum k v, r')
+      | _ => none
+    | _ => none
+  | f + 1, 't' :: '[' :: cs => (pValList f cs).map fun (vs, r) => (.tuple vs, r)
+  | _, _ => none
+def pValList : Nat → List Char → PR (List Val)
+  | 0, _ => none
+  | _ + 1, ']' :: cs => some ([], cs)
+  | f + 1, cs =>
+    match pVal f cs with
+    | none => none
+    | some (v, ',' :: r) => (pValList f r).map fun (vs, r') => (v :: vs, r')
+    | some (v, ']' :: r) => some ([v], r)
+    | some _ => none
+end
+
+def whole {α} (r : PR α) : Option α := match r with
+  | some (a, []) => some a
+  | _ => none
+
+def parseTy (s : String) : Option Ty := whole (pTy 100000 s.toList)
+def parsePat (s : String) : Option Pat := whole (pPat 100000 s.toList)
+def parsePats (s : String) : Option (List Pat) := (s.splitOn ";").mapM parsePat
+
+def parseIdxs (s : String) : Option (List Nat) :=
+  if s = "-" then some [] else (s.splitOn ",").mapM String.toNat?
+
+/-- `val:arm` pairs; arm `R` = the program reverted on that value. Splitting is on the `:` and on commas at
+bracket depth 0. -/
+def splitTop (cs : List Char) : List (List Char) :=
+  let rec go (cs : List Char) (depth : Nat) (cur : List Char) (acc : List (List Char)) : List (List Char) :=
+    match cs with
+    | [] => (cur.reverse :: acc).reverse
+    | c :: r =>
+      if c == ',' && depth == 0 then go r depth [] (cur.reverse :: acc)
+      else if c == '[' || c == '(' then go r (depth + 1) (c :: cur) acc
+      else if c == ']' || c == ')' then go r (depth - 1) (c :: cur) acc
+      else go r depth (c :: cur) acc
+  go cs 0 [] []
+
+def parseRuns (s : String) : Option (List (Val × Option Nat)) :=
+  if s = "-" then some [] else
+  (splitTop s.toList).mapM fun tok =>
+    let v := tok.takeWhile (· != ':')
+    let a := (tok.dropWhile (· != ':')).drop 1
+    match whole (pVal 100000 v) with
+    | none => none
+    | some val =>
+      if a == ['R'] then some (val, none)
+      else match String.toNat? (String.ofList a) with
+        | some k => some (val, some k)
+        | none => none
+
+def kv (toks : List String) (key : String) : Option String :=
+  toks.findSome? fun t => if t.startsWith (key ++ "=") then some ((t.drop (key.length + 1)).toString) else none
+
+/-! ## Shape predicates used to classify known deviations -/
+
+mutual
+def hasNum : Pat → Bool
+  | .num _ _ => true
+  | .enum _ _ p => hasNum p
+  | .tuple ps => hasNumL ps
+  | .strct _ ps => hasNumL ps
+  | .or ps => hasNumL ps
+  | _ => false
+def hasNumL : List Pat → Bool
+  | [] => false
+  | p :: ps => hasNum p || hasNumL ps
+end
+
+mutual
+/-- Some struct pattern does not list every field in declaration order. -/
+def hasPartial : Pat → Ty → Bool
+  | .enum _ k p, .enum ts => (match ts[k]? with
+      | some t => hasPartial p t
+      | none => false)
+  | .tuple ps, .tuple ts => hasPartialL ps ts
+  | .strct idx ps, .strct ts => idx != List.range ts.length || hasPartialF idx ps ts
+  | .or ps, t => hasPartialAny ps t
+  | _, _ => false
+def hasPartialL : List Pat → List Ty → Bool
+  | p :: ps, t :: ts => hasPartial p t || hasPartialL ps ts
+  | _, _ => false
+def hasPartialF : List Nat → List Pat → List Ty → Bool
+  | i :: is, p :: ps, ts => (match ts[i]? with
+      | some t => hasPartial p t
+      | none => false) || hasPartialF is ps ts
+  | _, _, _ => false
+def hasPartialAny : List Pat → Ty → Bool
+  | [], _ => false
+  | p :: ps, t => hasPartial p t || hasPartialAny ps t
+end
+
+mutual
+def hasTypedU8 : Pat → Bool
+  | .u8 _ _ => true
+  | .enum _ _ p => hasTypedU8 p
+  | .tuple ps => hasTypedU8L ps
+  | .strct _ ps => hasTypedU8L ps
+  | .or ps => hasTypedU8L ps
+  | _ => false
+def hasTypedU8L : List Pat → Bool
+  | [] => false
+  | p :: ps => hasTypedU8 p || hasTypedU8L ps
+end
+
+mutual
+/-- A `num` range reaching above 255 (what `create_pattern_not_present` builds for untyped literals). -/
+def hasWideNum : Pat → Bool
+  | .num _ hi => hi > 255
+  | .u8 _ hi => hi > 255
+  | .enum _ _ p => hasWideNum p
+  | .tuple ps => hasWideNumL ps
+  | .strct _ ps => hasWideNumL ps
+  | .or ps => hasWideNumL ps
+  | _ => false
+def hasWideNumL : List Pat → Bool
+  | [] => false
+  | p :: ps => hasWideNum p || hasWideNumL ps
+end
+
+/-- Position of the interior catch-all arm (`interior_catch_all_arm_position`). -/
+def interiorCatchAll (arms : List Pat) : Option Nat :=
+  findIdx Pat.isCatchAll (arms.take (arms.length - 1)) 0
+
+def joinPlus (l : List String) : String := if l.isEmpty then "-" else "+".intercalate l
+
+def showIdxs (l : List Nat) : String := if l.isEmpty then "-" else ",".intercalate (l.map toString)
+
+def answer (line : String) : String :=
+  let (c, i) := splitCase line
+  match c, i with
+  | ["match", tyS, armsS], head :: rest =>
+    match parseTy tyS, parsePats armsS, (kv rest "unreachable").bind parseIdxs, (kv rest "run").bind parseRuns with
+    | some ty, some arms, some unr, some runs =>
+      let implIce := head.startsWith "ice:"
+      let implOther := head.startsWith "other:" || !(implIce || head == "ok" || head == "nonexh")
+      let implExh := head == "ok"
+      let witS := (kv rest "witness").getD "-"
+      let wit : Option (List Pat) :=
+        if witS == "unparsed" then none else if witS == "-" then some [] else parsePats witS
+      let witnessKey := if witS == "unparsed" || (witS != "-" && wit.isNone) then "unparsed" else if witS == "-" then "none" else "parsed"
+      -- model
+      let m := analyse driverFuel arms
+      let (mHead, mUnr, mWit) := match m with
+        | .ice => ("ice", ([] : List Nat), ([] : List Pat))
+        | .ok true u _ => ("ok", u, [])
+        | .ok false u w => ("nonexh", u, flattenStack w)
+      let rtOK := runs.all fun (v, a) => rtFirst arms v == a
+      let agree := !implOther && rtOK &&
+        (if implIce then mHead == "ice" else mHead == head && sameSet mUnr unr)
+      -- property
+      let parts := propParts ty arms implIce implExh wit unr runs
+      let partial_ := arms.any (hasPartial · ty)
+      let num := arms.any hasNum
+      let oracleUnr := (List.range arms.length).filter (unreachableBF ty arms)
+      let ica := interiorCatchAll arms
+      let whyExh : List String :=
+        if parts.exh then [] else
+        if partial_ then ["struct-rest-positional"]
+        else if implIce && num && arms.any hasTypedU8 then ["literal-suffix-mix-ice"]
+        else if num then ["literal-width-u64"] else ["unclassified-exh"]
+      let whyUnr : List String :=
+        if parts.unr then [] else
+        -- warnings ⊆ oracle and the only missing one is the interior catch-all arm itself
+        let missing := oracleUnr.filter (!unr.contains ·)
+        let extra := unr.filter (!oracleUnr.contains ·)
+        let icaOnly := match ica with
+          | some k => extra.isEmpty && missing == [k]
+          | none => false
+        let icaPart := match ica with
+          | some k => missing.contains k
+          | none => false
+        if icaOnly then ["interior-catchall-nowarn"]
+        else if partial_ then (if icaPart then ["interior-catchall-nowarn", "struct-rest-positional"] else ["struct-rest-positional"])
+        else if num then (if icaPart then ["interior-catchall-nowarn", "literal-width-u64"] else ["literal-width-u64"])
+        else ["unclassified-unr"]
+      let modelWitOK := mHead == "nonexh" && !mWit.isEmpty && mWit.all (witnessOK ty arms)
+      let whyWit : List String :=
+        if parts.wit then [] else
+        if implExh then ["unclassified-wit"] else
+        if partial_ then ["struct-rest-positional"]
+        else if mHead != "nonexh" then ["unclassified-wit"]
+        else if modelWitOK then ["tuple-display-dedup"]
+        else
+          -- the model's own (pre-Display) witness list is already wrong: only because of out-of-type
+          -- u64 ranges, or because of the stack concatenation
+          let bad := mWit.filter (!witnessOK ty arms ·)
+          if num && bad.all (fun w => hasWideNum w && !(allValues ty).any (w.matches ·)) then ["literal-width-u64"]
+          else ["witness-join"]
+      let whyRun : List String :=
+        if parts.run then [] else
+        if rtOK && arms.any Pat.hasOrCatchAll then ["or-catchall-alt-runtime"] else ["unclassified-run"]
+      let whyOther : List String := if implOther then ["unclassified-other"] else []
+      let why := (whyExh ++ whyUnr ++ whyWit ++ whyRun ++ whyOther).eraseDups
+      let prop := parts.all && !implOther
+      let frag := arms.all (·.hasTy ty)
+      s!"{mHead} unreachable={showIdxs mUnr} agree={b01 agree} prop={b01 prop} why={joinPlus why} pe={b01 parts.exh} pw={b01 parts.wit} pu={b01 parts.unr} pr={b01 parts.run} bf={b01 (exhaustiveBF ty arms)} fragment={b01 frag} witness={witnessKey} arms={arms.length} ran={b01 (!runs.isEmpty)}"
+    | _, _, _, _ => "bad-case agree=0 prop=0 why=unclassified-parse"
+  | _, _ => "bad-line agree=0 prop=0 why=unclassified-parse"
 
 def run : IO Unit := do
   lineLoop (← IO.getStdin) (← IO.getStdout) answer
